@@ -421,7 +421,45 @@ def size_mismatch(size_ops, emit_ops):
 
 
 # -- R10.5 include_bytes -------------------------------------------------------------------------------------------------------------
+def check_same_file(rep, facts):
+    """The file whose size is measured for the layout and the file remembered for the content are one and the same path value:
+    in the function that calls os.path.getsize, a path stored on the line object is the very value that was measured."""
+    from ..pathwalk import loop_paths, main_loop
+    n = 0
+    for fname, fn in facts.funcs.items():
+        if not any(isinstance(x, ast.Call) and dotted(x.func) == 'os.path.getsize' for x in ast.walk(fn)):
+            continue
+        if main_loop(fn) is None:
+            continue
+        _, loop, paths = loop_paths(facts, fn)
+        for p in paths:
+            measured = []
+            for ev in p.events:
+                v = strip_res(ev[1]) if ev[0] == 'value' else None
+                if v is not None and v[0] == 'call' and v[1] == 'os.path.getsize' and v[2]:
+                    measured.append(v[2][0])
+            if not measured:
+                continue
+            for ev in p.events:
+                if ev[0] != 'setattr':
+                    continue
+                v = ev[3]
+                sv = strip_res(v)
+                pathlike = v in measured or (sv[0] == 'call' and sv[1].startswith('os.path.')) or \
+                    any(strip_res(m)[0] in ('call', 'callv') and sv[0] == strip_res(m)[0] and sv[1] == strip_res(m)[1] for m in measured)
+                if not pathlike:
+                    continue
+                n += 1
+                rep.check(v in measured, 'R10.5.same-file', '{}: the path remembered on the line is the path that was measured'.format(fname),
+                          lambda ev=ev, v=v, fname=fname: Finding('R10.5.same-file', fname, ev[4],
+                                                                  'the size appended to the include_bytes line is measured on {} but the content will be read from {}: '
+                                                                  'when both exist the layout is computed for one file and the bytes come from another'.format(
+                                                                      show(measured[0])[:60], show(v)[:60]), line=getattr(ev[4], 'lineno', None)))
+    rep.count('remembered include_bytes paths', n)
+
+
 def check_include_bytes(rep, model):
+    check_same_file(rep, model.facts)
     facts = model.facts
     cg = CallGraph(facts)
     pv = Prov(facts, cg)
